@@ -1,6 +1,7 @@
 /-
 C10 — configured severities relabel diagnostics without changing what is found.
 -/
+import Selene.Lints.CyclomaticProof
 import Selene.Filter.Lemmas
 import Selene.Props.C08
 import Selene.Props.C19
@@ -89,5 +90,20 @@ theorem C10_allow_silent (sevs : List Selene.Cli.Sev) :
     (Selene.Cli.FileOutcome.linted sevs).counts =
       (Selene.Cli.FileOutcome.linted (sevs.filter (· ≠ .allow))).counts :=
   Selene.Props.C19.C19_allow_silent sevs
+
+/-! ### what `high_cyclomatic_complexity` measures once it is enabled -/
+
+open Selene.Lints.Cyclomatic in
+/-- **the complexity attributed to a function is one plus the number of decision points** (`if`, `elseif`,
+`while`, `repeat`, `for`, `and`, `or`) its body's walk reaches — whatever the traversal order or the starting
+value of the accumulator (`CyclomaticProof.lean`) -/
+theorem C10_cyclomatic_is_count (sp : Selene.Lua.Span) (ps : List Selene.Lua.Param) (b : Selene.Lua.Block) :
+    complexity (.mk sp ps b) = 1 + Doc.ptsB b := complexity_eq sp ps b
+
+open Selene.Lints.Cyclomatic in
+/-- a function is reported exactly when that count reaches the configured maximum: with the lint enabled at
+`maximum_complexity = m`, a function with fewer than `m` decision points is silent -/
+theorem C10_cyclomatic_reported_iff (max start : Nat) (sp : Selene.Lua.Span) (ps : List Selene.Lua.Param) (b : Selene.Lua.Block) :
+    diagOf max start (.mk sp ps b) ≠ [] ↔ Doc.ptsB b ≥ max := reported_iff max start sp ps b
 
 end Selene.Props.C10
